@@ -24,13 +24,21 @@ type Case struct {
 	Desc   *tv.Desc `json:"desc"`
 	Texts  [][]byte `json:"texts"`
 	AnyLen bool     `json:"any_len,omitempty"` // v1.UnmarshalArrayFromAnyLength(true)
+	Spell  int      `json:"spell,omitempty"`   // 1: DefaultOptionsV2() passed explicitly, 2: the legacy merge/error options passed as false (present, value of the default)
 }
 
 func (c *Case) opts() []json.Options {
-	if c.AnyLen {
-		return []json.Options{jsonv1.UnmarshalArrayFromAnyLength(true)}
+	var pre []json.Options
+	switch c.Spell {
+	case 1:
+		pre = []json.Options{json.DefaultOptionsV2()}
+	case 2:
+		pre = []json.Options{jsonv1.MergeWithLegacySemantics(false), jsonv1.ReportErrorsWithLegacySemantics(false), json.RejectUnknownMembers(false)}
 	}
-	return nil
+	if c.AnyLen {
+		return append(pre, jsonv1.UnmarshalArrayFromAnyLength(true))
+	}
+	return pre
 }
 
 func genCase(t *rapid.T) Case {
@@ -47,7 +55,7 @@ func genCase(t *rapid.T) Case {
 		cfg.Tags = true // names / omit options / case options (no string or format)
 		cfg.Leaves = []string{"bool", "string", "bytes", "bytearr", "bool", "string"}
 	}
-	c := Case{Desc: tv.GenDesc(t, cfg), AnyLen: rapid.IntRange(0, 3).Draw(t, "anylen") == 0}
+	c := Case{Desc: tv.GenDesc(t, cfg), AnyLen: rapid.IntRange(0, 3).Draw(t, "anylen") == 0, Spell: rapid.SampledFrom([]int{0, 0, 1, 2}).Draw(t, "spell")}
 	stripStringOpt(c.Desc)
 	k := rapid.IntRange(2, 4).Draw(t, "chain")
 	for i := 0; i < k; i++ {
